@@ -1070,7 +1070,7 @@ sim::CaseResult CtrlSim::runCase(const sim::Options &o, const Json &plan)
             ob::PlannerSolution topBefore(nullptr);
             bool had = q.pdef->getSolution(topBefore);
             auto before = q.pdef->getSolutions();
-            const bool refRun = c03 && op.has("ref_stream") && before.empty();
+            bool refRun = c03 && op.has("ref_stream") && before.empty();
             long drawsA = 0;
             struct DrawsGuard
             {
@@ -1079,12 +1079,19 @@ sim::CaseResult CtrlSim::runCase(const sim::Options &o, const Json &plan)
                     rngfault::allDrawsOff();
                 }
             } drawsGuard;
-            if (refRun)
+            if (refRun && !pl->isSetup())
             {
-                if (!pl->isSetup())
+                try
+                {
                     pl->setup();
-                rngfault::allDrawsOn((uint64_t)op.geti("ref_stream"));
+                }
+                catch (ompl::Exception &)
+                {
+                    refRun = false;
+                }
             }
+            if (refRun)
+                rngfault::allDrawsOn((uint64_t)op.geti("ref_stream"));
             try
             {
                 status = pl->solve(ptc);
